@@ -74,6 +74,15 @@ def decompose_qpd_instructions(
         for i, decomp_gate_ids in enumerate(instruction_ids):
             for gate_id in decomp_gate_ids:
                 circuit.data[gate_id].operation.basis_id = map_ids[i]
+    else:
+        # Without map IDs, every gate must already know which map to use
+        for decomp_gate_ids in instruction_ids:
+            for gate_id in decomp_gate_ids:
+                if circuit.data[gate_id].operation.basis_id is None:
+                    raise ValueError(
+                        f"No map ID was provided for the QPD gate at index ({gate_id}), "
+                        "and its basis_id is not set."
+                    )
 
     # Convert all instances of BaseQPDGate in the circuit to Qiskit instructions
     _decompose_qpd_instructions(circuit, instruction_ids)
